@@ -54,10 +54,10 @@ func (w *World) oracleOnBind(p *PodInfo, m *simkube.Mutation) {
 			}
 		}
 	}
-	if w.armed("C08") && p.App != nil && len(p.App.Ranges) > 0 {
+	if w.armed("C08") && p.App != nil && len(p.Ranges) > 0 {
 		w.oracleC08Bind(p)
 	}
-	if w.armed("C02") && p.App != nil && len(p.App.Ranges) == 0 {
+	if w.armed("C02") && p.App != nil && len(p.Ranges) == 0 && !w.identityEverHadRanges(p.Key) {
 		// (c) the IPs written into the binding are exactly the IPs the store holds for the identity
 		var held []string
 		for _, ip := range w.storeIPsOfKey(p.Key) {
@@ -279,7 +279,7 @@ func (w *World) oracleC02Create(m *simkube.Mutation, ip string, oldF, newF *FipI
 		return
 	}
 	id := w.M.idents[newF.Key]
-	if id == nil || len(id.App.Ranges) > 0 {
+	if id == nil || w.identityEverHadRanges(newF.Key) {
 		return
 	}
 	// (a) an identity that already holds a (still configured) IP is never given another one
@@ -492,7 +492,7 @@ func (w *World) survivorCheck() {
 // ---- C08: multi-IP requests ------------------------------------------------------------------------------
 
 func (w *World) oracleC08Bind(p *PodInfo) {
-	rs := p.App.Ranges
+	rs := p.Ranges
 	if len(p.IPs) != len(rs) {
 		w.fail("C08.wrong-number-of-ips", "wrong-number-of-ips", "pod %s requested %d ranges %v and was bound with %d IPs %v", p.key(), len(rs), rs, len(p.IPs), p.IPs)
 		return
@@ -530,7 +530,7 @@ func (w *World) oracleC08Failed(br *bindReport) {
 		return
 	}
 	p := w.podByUID[br.UID]
-	if p == nil || p.App == nil || len(p.App.Ranges) == 0 {
+	if p == nil || p.App == nil || len(p.Ranges) == 0 {
 		return
 	}
 	// only failures of the allocation itself are in the property's scope: a range that cannot be satisfied or a
@@ -565,4 +565,18 @@ func (w *World) c04Key(base, identity string, atLeast int) string {
 		return base + ":identity-held-second-ip-after-lost-reply"
 	}
 	return base
+}
+
+// identityEverHadRanges: some incarnation of the identity requested IP ranges (then it may legitimately hold several IPs).
+func (w *World) identityEverHadRanges(key string) bool {
+	id := w.M.idents[key]
+	if id == nil {
+		return false
+	}
+	for _, uid := range id.UIDs {
+		if p := w.podByUID[uid]; p != nil && len(p.Ranges) > 0 {
+			return true
+		}
+	}
+	return false
 }
